@@ -1723,10 +1723,12 @@ class TLSConnection(TLSRecordLayer):
                 for result in self._sendMsg(certificate_verify):
                     yield result
 
-        # Do after client cert and verify messages has been sent.
+        # RFC 8446 section 7.1: the transcript for the exporter master
+        # secret ends with the server Finished, like the one for the
+        # application traffic secrets
         exporter_master_secret = derive_secret(secret,
                                                bytearray(b'exp master'),
-                                               self._handshake_hash, prfName)
+                                               server_finish_hs, prfName)
 
         self._recordLayer.calcTLS1_3PendingState(
             serverHello.cipher_suite,
@@ -3309,6 +3311,11 @@ class TLSConnection(TLSRecordLayer):
                                        self._handshake_hash, prf_name)
         sr_app_traffic = derive_secret(secret, bytearray(b's ap traffic'),
                                        self._handshake_hash, prf_name)
+        # RFC 8446 section 7.1: same transcript (up to server Finished)
+        exporter_master_secret = derive_secret(secret,
+                                               bytearray(b'exp master'),
+                                               self._handshake_hash,
+                                               prf_name)
         self._recordLayer.calcTLS1_3PendingState(serverHello.cipher_suite,
                                                  cl_app_traffic,
                                                  sr_app_traffic,
@@ -3416,12 +3423,6 @@ class TLSConnection(TLSRecordLayer):
                         "signature verification failed"):
                     yield result
 
-        # as both exporter and resumption master secrets include handshake
-        # transcript, we need to derive them early
-        exporter_master_secret = derive_secret(secret,
-                                               bytearray(b'exp master'),
-                                               self._handshake_hash,
-                                               prf_name)
 
         # verify Finished of client
         cl_finished_key = HKDF_expand_label(cl_handshake_traffic_secret,
